@@ -1,9 +1,9 @@
 \* design level: Model |= Judges over every cut / reversal / member order of the shapes
 CONSTANT Shapes <- S_MCT4
-CONSTANT MaxPieces = 2
+CONSTANT MaxPieces = 1
 CONSTANT MaskMode = "lean"
 CONSTANT Tasks = {"convert", "annotate"}
-CONSTANT Patterns = {"of", "alt"}
+CONSTANT Patterns = {"all"}
 INIT Init
 NEXT Next
 INVARIANT ConvertRecovers
